@@ -227,16 +227,31 @@ func (l *commitLog) Append(msgs []*Message) ([]int64, error) {
 		return nil, err
 	}
 	verifGate("append.before_write")
-	var (
-		segment          = l.activeSegment()
-		basePosition     = segment.Position()
-		baseOffset       = segment.NextOffset()
-		ms, entries, err = newMessageSetFromProto(baseOffset, basePosition, msgs, l.IsConcurrencyControlEnabled())
-	)
-	if err != nil {
-		return nil, err
+	for {
+		var (
+			segment          = l.activeSegment()
+			basePosition     = segment.Position()
+			baseOffset       = segment.NextOffset()
+			ms, entries, err = newMessageSetFromProto(baseOffset, basePosition, msgs, l.IsConcurrencyControlEnabled())
+		)
+		if err != nil {
+			return nil, err
+		}
+		offsets, err := l.append(segment, ms, entries)
+		if err == ErrSegmentClosed {
+			// A concurrent truncation may have removed or replaced the
+			// segment after it was picked. Truncate holds the log mutex
+			// until the new active segment is in place, so wait for it.
+			// Nothing was written: append to the segment active now.
+			l.mu.RLock()
+			replaced := l.activeSegment() != segment
+			l.mu.RUnlock()
+			if replaced {
+				continue
+			}
+		}
+		return offsets, err
 	}
-	return l.append(segment, ms, entries)
 }
 
 // AppendMessageSet writes the given message set data to the log and returns
